@@ -24,8 +24,8 @@ macro_rules! c14_frame {
         #[kani::stub(libm::logf, c_ln32)]
         #[kani::stub(libm::exp, c_exp64)]
         #[kani::stub(libm::expf, c_exp32)]
-        #[kani::stub(libm::pow, c_pow64)]
-        #[kani::stub(libm::powf, c_pow32)]
+        #[kani::stub(libm::pow, c_pow64_plain)]
+        #[kani::stub(libm::powf, c_pow32_plain)]
         #[kani::stub(libm::sqrt, c_sqrt64_class)]
         #[kani::stub(libm::sqrtf, c_sqrt32_class)]
         #[kani::stub(libm::tan, c_tan64)]
@@ -34,8 +34,7 @@ macro_rules! c14_frame {
         #[kani::stub(libm::floorf, c_floor32)]
         #[kani::stub(f64::ln, c_ln64)]
         #[kani::stub(f64::exp, c_exp64)]
-        #[kani::stub(f64::powf, c_pow64)]
-        #[kani::stub(f64::powi, c_powi64)]
+        #[kani::stub(f64::powf, c_pow64_plain)]
         #[kani::stub(f64::sqrt, c_sqrt64_class)]
         #[kani::stub(crate::utils::ziggurat, c_ziggurat)]
         #[kani::unwind($unw)]
